@@ -7,6 +7,11 @@ import shutil
 
 import numpy as np
 
+try:
+    from props import c06_faults as cf
+except ImportError:           # the driver process: the script directory is on sys.path
+    import c06_faults as cf
+
 
 def fhex(x):
     return float(x).hex()
@@ -400,6 +405,10 @@ def stage_rest(spec, caches, outdir, max_workers, is_root, ops=None, opts=None, 
 #            the cache) while the other ranks are already waiting for it
 #   group C: raised by the job function on a worker rank inside parallel.iter_unordered
 #   group M: refused only under MPI (catalog creation needs two ranks); nothing to compare with
+#   group T: (v) a VALID request whose jobs fail TRANSIENTLY: an entry point that maps its patches / patch pairs through
+#            parallel.iter_unordered runs with a fault plan (c06_faults: which call of iter_unordered, which items, which
+#            exception, on the first execution only / always / on given ranks only).  A job that raises ends the request
+#            by raising, in the single-process run and under MPI alike; no job is executed twice.
 # ------------------------------------------------------------------------------------------
 REFUSALS = {
     # class: (group, entry point, creation pipeline involved (needs max_workers != 1 under MPI))
@@ -429,9 +438,19 @@ REFUSALS = {
     "auto-no-redshifts": ("C", "yaw.autocorrelate with a data catalog without redshifts", False),
     "cross-no-redshifts": ("C", "yaw.crosscorrelate with a reference catalog without redshifts", False),
     "hist-no-redshifts": ("C", "HistData.from_catalog on a catalog without redshifts", False),
+    "transient-job-error-load": ("T", "Catalog(cache) while Patch jobs fail as planned", False),
+    "transient-job-error-trees": ("T", "Catalog.build_trees while jobs (Patch, BinnedTrees.build) fail as planned", False),
+    "transient-job-error-auto": ("T", "yaw.autocorrelate while jobs (Patch, BinnedTrees.build, process_patch_pair) fail as planned", False),
+    "transient-job-error-cross": ("T", "yaw.crosscorrelate while jobs (Patch, BinnedTrees.build, process_patch_pair) fail as planned", False),
+    "transient-job-error-hist": ("T", "HistData.from_catalog while jobs (Patch, _redshift_histogram) fail as planned", False),
 }
+# the catalogs a group T request opens (each `Catalog(cache)` is one iter_unordered call) and an upper bound of the number of
+# iter_unordered calls it makes (the plan names the call that fails; a number beyond the last call = nothing fails)
+FAULT_CATS = {"load": ["data"], "trees": ["data"], "hist": ["data"], "auto": ["data", "rand"], "cross": ["data", "rand", "unk", "urand"]}
+FAULT_MAX_EP = {"load": 0, "trees": 1, "hist": 1, "auto": 6, "cross": 11}
 # refusal classes whose request has a `progress` keyword (all but Catalog(cache) and the file readers of results)
-NO_PROGRESS_KW = ("load-cache-missing", "load-no-patch-info", "io-corrfunc-file-missing", "io-hist-files-missing")
+NO_PROGRESS_KW = ("load-cache-missing", "load-no-patch-info", "io-corrfunc-file-missing", "io-hist-files-missing",
+                  "transient-job-error-load")
 EXTRA_CATS = ("noz", "ids", "shift")
 FAR_CENTRE = (200.0, 60.0)
 
@@ -471,8 +490,27 @@ def prepare_refusal_dir(d):
     os.makedirs(os.path.join(d, "out"))
 
 
+def fault_request(op, spec, env, par, max_workers):
+    """(group T) the entry point `op` on the regular catalogs with the fault plan par["plan"] armed on the calling rank for
+    the duration of the request"""
+    from yaw.utils import parallel
+    cf.ensure_installed(parallel)
+    rank = parallel.COMM.Get_rank()
+    if not parallel.use_mpi():
+        cf.FAULTS.reset()         # a single-process run (reference): execution counters start at zero for every request
+    cf.FAULTS.arm(rank, par["plan"])
+    try:
+        caches = {k: env["caches"][k] for k in FAULT_CATS[op]}
+        opts = {"progress": [op]} if par.get("progress") else {}
+        return stage_rest(spec, caches, os.path.join(env["dir"], "out"), max_workers, rank == 0, ops=[op], opts=opts)
+    finally:
+        cf.FAULTS.disarm(rank)
+
+
 def refusal_call(cls, spec, env, par, max_workers):
     """issue the request of refusal class `cls` (all ranks call this); env = dict(dir, caches, extra)"""
+    if cls.startswith("transient-job-error-"):
+        return fault_request(cls.rsplit("-", 1)[1], spec, env, par, max_workers)
     import yaw
     from yaw import Catalog, CorrFunc, HistData
     from yaw.coordinates import AngularCoordinates
@@ -579,7 +617,7 @@ def refusal_outcome(cls, spec, env, par, max_workers):
     try:
         refusal_call(cls, spec, env, par, max_workers)
     except Exception as err:      # the simulator's WorldAbort is a BaseException and passes through
-        return ["raised", type(err).__name__, str(err)[:160]]
+        return ["raised", type(err).__name__, str(err)[:160], cf.describe(err)[2]]
     return ["returned"]
 
 
